@@ -231,6 +231,30 @@ func valueAccessors(vm *otto.Otto, v otto.Value) (bad string) {
 	return bad
 }
 
+// defaultRecv: the receiver a method is meant for, so that the positions being
+// varied are not masked by an early "wrong receiver" exit.
+func defaultRecv(path string) string {
+	switch {
+	case strings.HasPrefix(path, "Number.prototype."):
+		return "number"
+	case strings.HasPrefix(path, "String.prototype."):
+		return "string"
+	case strings.HasPrefix(path, "Array.prototype."):
+		return "array"
+	case strings.HasPrefix(path, "Date.prototype."):
+		return "date"
+	case strings.HasPrefix(path, "RegExp.prototype."):
+		return "regexp"
+	case strings.HasPrefix(path, "Function.prototype."):
+		return "function"
+	case strings.HasPrefix(path, "Boolean.prototype."):
+		return "boolean"
+	case strings.Contains(path, "Error.prototype."):
+		return "error"
+	}
+	return "object"
+}
+
 func cellKey(c *FSCase) string {
 	n := ""
 	if c.New {
@@ -573,7 +597,7 @@ func (e fsEngine) Exec(ci interface{}, st *Stats) (*Violation, interface{}, bool
 			// one varying position at a time, the others benign
 			for pos := 0; pos < 3; pos++ {
 				for _, kind := range fsKinds {
-					cell := &FSCase{Engine: "faultsweep", Path: path, New: isNew, Recv: "object", Args: []string{"number", "number"}}
+					cell := &FSCase{Engine: "faultsweep", Path: path, New: isNew, Recv: defaultRecv(path), Args: []string{"number", "number"}}
 					switch pos {
 					case 0:
 						if isNew {
